@@ -8,6 +8,7 @@ Effect trace of stream(file) + func:  makedirs . open(f+'.active','w') . (write 
 With POSIX rename atomicity (T11) a checkpoint that is picked up is complete; completeness of the content at rename time
 is the drain obligation of C05 (every row pulled through res_writer is written and flushed before it is yielded).
 """
+from contracts import findings_natives as KF
 from contracts.common import Item
 from contracts import streams as S
 
@@ -157,4 +158,5 @@ ITEMS = [
     Item('stream.faulty-io', S.sym_stream_faulty, [], 'dataflows/processors/stream.py::stream.write'),
     Item('checkpoint', S.sym_checkpoint, [], 'dataflows/processors/checkpoint.py::checkpoint._preprocess_chain'),
     Item('unstream', S.sym_unstream, [], 'dataflows/processors/unstream.py::unstream'),
+    Item('recorded-findings', None, [('bounded', KF.nat_findings_c08)], 'dataflows/processors/stream.py::stream.func'),
 ]
